@@ -72,9 +72,9 @@ PROPS = {
         unverified=[
             'PROVED (unit pos_conv, desugarings R1/R12/R13): index_to_position and span_to_range equal the reference for every text shorter than 2^31 characters; positions grow strictly with the index; position_to_index / range_to_span invert them for every index on an LF-terminated line or in a text without LF. NOT covered by the proof: the final line of a text that contains LF (known finding D4: the function is wrong there)',
             'lint_to_code_actions / generate_code_actions (Url, HashMap, serde_json, Document): TextEdit construction and code-action lookup are not under contract',
-            'texts longer than the bound, characters outside the 6-symbol alphabet',
+            'texts longer than the bound, characters outside the 8-symbol alphabet',
         ],
-        assumptions=['Kani results are for a 64-bit target; alphabet {LF, CR, a, TAB, U+1F600, U+0301} represents the UTF-16 width classes 1 and 2 and the only character pos_conv treats specially (LF)'],
+        assumptions=['Kani results are for a 64-bit target; alphabet {LF, CR, a, U+4E2D, U+1F600, U+0301, U+200B, U+010A} represents the UTF-16 width classes 1 and 2 and the only character pos_conv treats specially (LF)'],
     ),
     'C13': dict(
         level='proof',
@@ -135,7 +135,7 @@ PROPS = {
     'C04': dict(
         level='exploration',
         verus=['mask', 'mask_parser', 'comments', 'comments_doc', 'lhs_masker'], kani_quick=[], kani_thorough=[],
-        rac=['prose_offsets', 'lhs_prose_offsets', 'html_prose_offsets', 'typst_prose_offsets', 'c04_jsdoc_fence', 'c04_tilde_fence', 'c04_go_directive', 'c04_javadoc_pre', 'c04_javadoc_return'],
+        rac=['prose_offsets', 'lhs_prose_offsets', 'html_prose_offsets', 'typst_prose_offsets', 'c04_fixed_files', 'c04_jsdoc_fence', 'c04_tilde_fence', 'c04_go_directive', 'c04_javadoc_pre', 'c04_javadoc_return'],
         unverified=[
             'BOUNDED ONLY: tree-sitter node selection + byte_spans_to_char_spans (str byte code), the Markdown byte/char bookkeeping, without_initiators (which characters count as comment markers), jsdoc::parse_line / mark_inline_tags; PROVED are the composition steps: parsers::Mask<M,P>::parse (tokens shifted into their chunk, in order, nothing outside the allowed spans emitted as text - given the Masker and inner-Parser contracts), the mask operations push_allowed / merge_whitespace_sep, and the line-based comment parsers Unit / Go / JsDoc / JavaDoc::parse + unit::parse_line (every line\'s tokens moved behind its comment markers and to the line\'s offset; result in bounds and ordered - given the inner-Parser contract)',
             'the git-commit front-end and the other 15 tree-sitter languages are not in the prose-offset checks; for Typst only the declared prose words are demanded (strings handed to functions may or may not be prose), not exactness',
